@@ -18,8 +18,9 @@ import (
 type lockState struct {
 	p       *core.Prog
 	r       *core.Report
-	classes map[string]bool            // mutex classes tracked ("shard", "ackGlocks", ...)
-	isStore func(k core.FieldKey) bool // fields whose stores are observed
+	classes map[string]bool                // mutex classes tracked ("shard", "ackGlocks", ...)
+	isStore func(k core.FieldKey) bool     // fields whose stores are observed
+	isEvent func(ins ssa.Instruction) bool // other instructions that make a function relevant (observed calls)
 	// observe is called for every instruction of a function explored as top
 	// (stores, calls, loads) with the current held state.
 	observe func(x *core.X, top *ssa.Function, entry string)
@@ -83,6 +84,9 @@ func (ls *lockState) computeRelevant() {
 		for _, b := range fn.Blocks {
 			for _, ins := range b.Instrs {
 				if c, _, ok := mutexOp(x, ins); ok && ls.classes[c] {
+					direct[fn] = true
+				}
+				if ls.isEvent != nil && ls.isEvent(ins) {
 					direct[fn] = true
 				}
 				if st, ok := ins.(*ssa.Store); ok && ls.isStore != nil {
